@@ -92,6 +92,26 @@ def run_impl(prog):
     res = {'trace': trace, 'problems': problems}
     try:
         d.calculate_adjustment_sets()
+        if len(d.dag.edges) <= 5 and (len(prog) + len(d.dag.edges) + len(d.dag.nodes)) % 4 == 0:
+            # the documented follow-up diagnostics between calculate_adjustment_sets() and reading the listing: they report
+            # on OTHER graphs (reversed arrows) / draw, and must leave this graph's listing alone
+            import contextlib
+            import io
+            res['diagnostics_called'] = True
+            with contextlib.redirect_stdout(io.StringIO()):
+                try:
+                    chosen = d.minimal_adjustment_sets[0] if d.minimal_adjustment_sets else ()
+                    d.assess_misdirections(chosen_adjustment_set=chosen)
+                except Exception:   # noqa
+                    pass
+                try:
+                    import matplotlib
+                    matplotlib.use('Agg')
+                    import matplotlib.pyplot as plt
+                    d.draw_dag()
+                    plt.close('all')
+                except Exception:   # noqa
+                    pass
         res['sets'] = [[IDX[v] for v in s] for s in d.adjustment_sets]
         res['minimal'] = [[IDX[v] for v in s] for s in d.minimal_adjustment_sets]
     except Exception as e:   # noqa
